@@ -44,7 +44,8 @@ func (w *world) exec(r *hx.Run, op []string) (res string) {
 			// a panicking handler commits nothing
 			r.PanicMsg = strings.ReplaceAll(strings.ReplaceAll(hxSprint(e), "\n", " "), "\t", " ")
 			r.Hist("outcome.panic")
-			res = "panic " + digest(w.snap().text())
+			w.cur = nil
+			res = "panic " + digest(w.now().text())
 			w.sh.afterPanic(r, w, op)
 		}
 	}()
@@ -77,13 +78,13 @@ func (w *world) exec(r *hx.Run, op []string) (res string) {
 		w.height = uint32(h)
 		return "ok"
 	case "dump":
-		return w.snap().text()
+		return w.now().text()
 	}
 	if len(op) < 2 {
 		return "bad-op"
 	}
 	var cr callResult
-	pre := w.snap()
+	pre := w.now()
 	switch op[0] {
 	case "init":
 		mbcv, ok := u64(op[1])
@@ -315,7 +316,8 @@ func (w *world) exec(r *hx.Run, op []string) (res string) {
 	default:
 		return "bad-op"
 	}
-	post := w.snap()
+	w.cur = nil
+	post := w.now()
 	w.sh.after(r, w, op, pre, post, cr)
 	if cr.err {
 		r.Hist("outcome.err")
